@@ -456,6 +456,20 @@ def _chainab():
     return crystal.Crystal(np.diag([1., 4., 4.3]), [[np.zeros(3)], [np.array([0.5, 0.1, 0.])]], ['A', 'B'])
 
 
+def _zigzag():
+    """zigzag chain: TWO mobile sites of the same species per cell, nearest-neighbour jumps join different basis sites"""
+    from onsager import crystal
+    return crystal.Crystal(np.diag([1., 4., 4.3]), [[np.zeros(3), np.array([0.5, 0.1, 0.])]], ['A'])
+
+
+def _p1aab():
+    """triclinic P1 cell with three atoms (A, A', B) close together INSIDE the cell: the shortest pairs share a lattice
+    vector and have no symmetry image that crosses a cell boundary"""
+    from onsager import crystal
+    return crystal.Crystal(np.array([[1., 0.21, 0.17], [0., 1.1, 0.33], [0., 0., 1.23]]),
+                           [[np.zeros(3), np.array([0.3, 0.1, 0.2])], [np.array([0.1, 0.35, 0.25])]], ['A', 'B'])
+
+
 def _sq():
     from onsager import crystal
     return crystal.Crystal(np.diag([1., 1., 3.3]), [np.zeros(3)], ['A'])
@@ -476,7 +490,7 @@ def _skewsq():
     return crystal.Crystal(np.array([[1., 3., 0.], [0., 1., 0.], [0., 0., 1.5]]), [np.zeros(3)], ['A'], noreduce=True)
 
 
-LOCAL = {'CHAIN': _chain, 'CHAINAB': _chainab, 'SQLAYER': _sq, 'TRILAYER': _tri, 'SKEWSQ': _skewsq}
+LOCAL = {'CHAIN': _chain, 'CHAINAB': _chainab, 'ZIGZAG': _zigzag, 'P1AAB': _p1aab, 'SQLAYER': _sq, 'TRILAYER': _tri, 'SKEWSQ': _skewsq}
 
 # name: (catalogue crystal, supercell matrix, spectator species)
 SUPERCELLS = {
@@ -492,6 +506,7 @@ SUPERCELLS = {
     # minimum-image supercells (period >= 2 x cutoff for the expansions used with them)
     'CHAIN8': ('CHAIN', [[8, 0, 0], [0, 1, 0], [0, 0, 1]], ()),         # ring of 8, chains 4 apart
     'CHAINAB5': ('CHAINAB', [[5, 0, 0], [0, 1, 0], [0, 0, 1]], (1,)),   # ring of 5 mobile A + 5 spectator B
+    'ZIGZAG4': ('ZIGZAG', [[4, 0, 0], [0, 1, 0], [0, 0, 1]], ()),       # ring of 4 cells x 2 mobile sites (jumps between different basis sites)
     'SQ33': ('SQLAYER', [[3, 0, 0], [0, 3, 0], [0, 0, 1]], ()),         # 3x3 square layer, 9 mobile; cutoff < 1.5
     'TRI33': ('TRILAYER', [[3, 0, 0], [0, 3, 0], [0, 0, 1]], ()),       # 3x3 triangular layer, 9 mobile; cutoff < 1.5
 }
